@@ -55,6 +55,8 @@ def run(ctx):
     from skchange.costs import GaussianCovCost, GaussianVarCost, L2Cost
     rng = ctx.rng
     kq, kq_meta = [], []
+    pf, pf_meta = [], []
+    from skchange.utils.numba.stats import col_cumsum
     N = ctx.n(70, 700)
     for it in range(N):
         p = rng.choice([1, 1, 2, 3, 4])
@@ -68,6 +70,14 @@ def run(ctx):
         if kind == "spike":
             X[:] = 0.0
             X[rng.randrange(n)] = 9.5
+        # the model of col_cumsum(init_zero=True) (prefix i = sum of the first i entries), exact on dyadic data
+        if it % 3 == 0:
+            sums = col_cumsum(X, init_zero=True)
+            sums2 = col_cumsum(X ** 2, init_zero=True)
+            for j in range(p):
+                for arr, src in ((sums, X[:, j]), (sums2, X[:, j] ** 2)):
+                    pf.append(f"({coq_list([qlit(Fraction(float(v))) for v in src])}, {coq_list([qlit(Fraction(float(v))) for v in arr[:, j]])})")
+                    pf_meta.append({"X_column": [float(v) for v in src], "col_cumsum": [float(v) for v in arr[:, j]]})
         mu_s = rng.randint(-16, 16) / 8.0
         mu_v = [rng.randint(-16, 16) / 8.0 for _ in range(p)]
         var_s = rng.choice([0.25, 1.0, 2.5])
@@ -200,6 +210,10 @@ def run(ctx):
                         if not direct.close([row[j]], [tr], scale=1e-3 if tol_scale == scale else 1e6):
                             ctx.mismatch(f"{name}: translated kernel {kern} gives {tr}, the real function {row[j]} on column {j} of [{s},{e})",
                                          dict(inp, column=j), {"what": "translator-vs-code", "kernel": kern})
+    if pf:
+        for i in coq_bad_cases(ctx.cid, HEADER, "pf_case", "pf_ok", pf, shard=200, tag="pf")[:10]:
+            ctx.violation(f"col_cumsum(x, init_zero=True) is not the array of prefix sums with a leading zero: column {pf_meta[i]['X_column']} -> {pf_meta[i]['col_cumsum']}",
+                          pf_meta[i], {"what": "prefix-sums"})
     if kq:
         bad = coq_bad_cases(ctx.cid, HEADER, "kq_case", "kq_ok", kq, shard=120, tag="kq")
         for i in bad[:20]:
